@@ -1316,11 +1316,22 @@ class ScopeDiscipline(Task):
             kw["node_fields"] = fields
         out = []
         big = self.cls_name in ("For", "Macro", "CallBlock")
-        for buf in ((None,) if big and tier == "quick" else (None, "t_buf")):
-            scs, _I = emit.run_visitor(f"jinja2.compiler:CodeGenerator.visit_{self.cls_name}", cls, buffer=buf, configure=track_configure, **kw)
-            for sc in scs:
-                sc.buffer = buf
-            out += scs
+        variants = [kw]
+        conf = track_configure
+        if self.cls_name == "AssignBlock":
+            # the namespace guard loop of visit_AssignBlock walks the target: concrete target shapes (stated bound)
+            variants = [dict(kw, node_fields=target_fields(shape)) for shape in TARGET_SHAPES]
+            self.bound_text = SHAPE_BOUND
+
+            def conf(I):
+                track_configure(I)
+                concrete_find_all(I)
+        for kw2 in variants:
+            for buf in ((None,) if big and tier == "quick" else (None, "t_buf")):
+                scs, _I = emit.run_visitor(f"jinja2.compiler:CodeGenerator.visit_{self.cls_name}", cls, buffer=buf, configure=conf, **kw2)
+                for sc in scs:
+                    sc.buffer = buf
+                out += scs
         return out
 
     def run(self, tier, seed):
@@ -1847,9 +1858,14 @@ def tracking_tasks():
                  buffers=(None,), replay_fn=replay_tracking, configure=track_configure, gen_fields=None, min_paths=4, pre=lambda st, g, nd: set_tracking(st, g)),
         EmitTask("C03", "C03.assign_tracking.visit_Assign.bracket", "jinja2.compiler:CodeGenerator.visit_Assign", N.Assign, assign_bracket_pred("Assign"), mode="stmts",
                  buffers=(None, "t_buf"), replay_fn=replay_tracking, configure=assign_configure, min_paths=1),
-        EmitTask("C03", "C03.assign_tracking.visit_AssignBlock.bracket", "jinja2.compiler:CodeGenerator.visit_AssignBlock", N.AssignBlock, assign_bracket_pred("AssignBlock"),
-                 mode="stmts", buffers=(None, "t_buf"), replay_fn=replay_tracking, configure=record_frames, min_paths=2),
-    ]
+    ] + [EmitTask("C03", f"C03.assign_tracking.visit_AssignBlock.bracket[{shape}]", "jinja2.compiler:CodeGenerator.visit_AssignBlock", N.AssignBlock,
+                  assign_bracket_pred("AssignBlock"), mode="stmts", buffers=(None, "t_buf"), replay_fn=replay_tracking, configure=shape_configure,
+                  node_fields=target_fields(shape), min_paths=2) for shape in TARGET_SHAPES]
+
+
+def shape_configure(I):
+    record_frames(I)
+    concrete_find_all(I)
 
 
 def set_tracking(st, g):
@@ -2100,9 +2116,20 @@ def replay_namespace(w):
         got = env.from_string(src).render(data)
         if got != want:
             problems.append(f"{src!r}: {got!r}, expected {want!r}")
+    for src, data, want in [("{% set ns = namespace() %}{% set ns.x %}42{% endset %}{{ ns.x }}", {}, "42"),
+                            ("{% set ns = namespace() %}{% set ns.x | upper %}ab{% endset %}{{ ns.x }}", {}, "AB"),
+                            ("{% set ns = namespace(n='') %}{% for i in [1, 2] %}{% set ns.n %}{{ ns.n }}{{ i }}{% endset %}{% endfor %}{{ ns.n }}", {}, "12")]:
+        got = env.from_string(src).render(data)
+        if got != want:
+            problems.append(f"{src!r}: {got!r}, expected {want!r}")
+    import copy as _copy
     for src, data in [("{% set d.a = 1 %}", {"d": {}}), ("{% set x = 1 %}{% set x.a = 1 %}", {}), ("{% set u.a = 1 %}", {}),
-                      ("{% set ns = namespace() %}{% set ns.a, d.b = 1, 2 %}", {"d": {}})]:
-        data = dict(data)
+                      ("{% set ns = namespace() %}{% set ns.a, d.b = 1, 2 %}", {"d": {}}),
+                      ("{% set d.x %}42{% endset %}", {"d": {"k": 1}}), ("{% set d.x | upper %}ab{% endset %}", {"d": {"k": 1}}),
+                      ("{% for r in rows %}{% set r.x %}{{ loop.index }}{% endset %}{% endfor %}", {"rows": [{"n": 1}, {"n": 2}]}),
+                      ("{% for r in rows %}{% set r.x = 1 %}{% endfor %}", {"rows": [{"n": 1}]}),
+                      ("{% set l.x %}1{% endset %}", {"l": [1, 2]}), ("{% macro m(p) %}{% set p.x %}1{% endset %}{% endmacro %}{{ m(d) }}", {"d": {"k": 1}})]:
+        before = _copy.deepcopy(data)
         try:
             env.from_string(src).render(data)
             problems.append(f"{src!r}: attribute assignment on a non-namespace object did not raise")
@@ -2110,9 +2137,184 @@ def replay_namespace(w):
             pass
         except Exception as ex:
             problems.append(f"{src!r}: {type(ex).__name__} instead of TemplateRuntimeError")
-        if data.get("d"):
-            problems.append(f"{src!r}: the non-namespace object was modified: {data['d']}")
+        if data != before:
+            problems.append(f"{src!r}: the non-namespace object was modified: data {before} became {data}")
     return (bool(problems), "; ".join(problems[:3]) or "Namespace items and attributes are inverse; non-namespace targets are rejected before any store")
+
+
+# ---- assignment targets of concrete SHAPE (names / attributes symbolic): what `{% set ... %}` can put in target position
+# (parser.parse_set is the only caller of parse_assign_target(with_namespace=True): see C03.namespace.nsref_sites)
+
+def _t_name(st, path):
+    from pyvc import emit
+    return emit.make_node(st, N.Name, path, fields={"ctx": "store"})
+
+
+def _t_nsref(st, path):
+    from pyvc import emit
+    return emit.make_node(st, N.NSRef, path)
+
+
+def _t_tuple(items):
+    def build(st, path):
+        from pyvc import emit
+        refs = [b(st, f"{path}.items[{i}]") for i, b in enumerate(items)]
+        return emit.make_node(st, N.Tuple, path, fields={"items": st.alloc(HList(items=refs), initial=True), "ctx": "store"})
+    return build
+
+
+TARGET_SHAPES = {
+    "name": _t_name, "nsref": _t_nsref, "tuple(name)": _t_tuple([_t_name]), "tuple(nsref)": _t_tuple([_t_nsref]),
+    "tuple(nsref,name)": _t_tuple([_t_nsref, _t_name]), "tuple(nsref,nsref)": _t_tuple([_t_nsref, _t_nsref]),
+    "tuple(name,tuple(nsref))": _t_tuple([_t_name, _t_tuple([_t_nsref])]),
+}
+SHAPE_BOUND = "assignment targets of the shapes " + ", ".join(TARGET_SHAPES) + " (names and attributes symbolic, equal or distinct)"
+
+
+def target_fields(shape):
+    return lambda st: {"target": TARGET_SHAPES[shape](st, "node.target")}
+
+
+def concrete_find_all(I):
+    """Node.find_all(cls) on a node whose target has a concrete shape: the descendants of that class inside the concrete part
+    (the abstract parts - value expression, bodies - cannot hold namespace references: only parse_set parses them, in target position)"""
+    def descendants(st, ref):
+        h = st.get(ref)
+        for f in getattr(h.cls, "fields", ()):
+            v = h.fields.get(f)
+            if isinstance(v, Ref) and isinstance(st.get(v), HObj) and isinstance(st.get(v).cls, type) and issubclass(st.get(v).cls, N.Node):
+                yield v
+                yield from descendants(st, v)
+            elif isinstance(v, Ref) and isinstance(st.get(v), HList) and st.get(v).concrete:
+                for x in st.get(v).items:
+                    if isinstance(x, Ref) and isinstance(st.get(x), HObj):
+                        yield x
+                        yield from descendants(st, x)
+
+    def find_all(I_, st, args, kwargs, node):
+        cls = args[1]
+        return [(st, tuple(r for r in descendants(st, args[0]) if issubclass(st.get(r).cls, cls)))]
+
+    I.specs["Node.find_all"] = find_all
+
+
+def store_guard_configure(I):
+    record_frames(I)
+    concrete_find_all(I)
+    I.emit_inline = (N.Keyword, N.Pair, N.Operand, N.NSRef, N.Tuple, N.Name)  # the target is compiled inline: its stores are visible
+
+
+def is_namespace_guard(stmt, ph):
+    """`if not isinstance(<template variable>, Namespace): raise TemplateRuntimeError(...)` -> the variable's identifier term"""
+    from pyvc import emit
+    if not (isinstance(stmt, ast.If) and not stmt.orelse and len(stmt.body) == 1 and isinstance(stmt.body[0], ast.Raise)):
+        return None
+    t = stmt.test
+    if not (isinstance(t, ast.UnaryOp) and isinstance(t.op, ast.Not) and isinstance(t.operand, ast.Call) and emit.call_name(t.operand) == "isinstance"
+            and len(t.operand.args) == 2 and isinstance(t.operand.args[1], ast.Name) and t.operand.args[1].id == "Namespace"):
+        return None
+    exc = stmt.body[0].exc
+    if not (isinstance(exc, ast.Call) and emit.call_name(exc) == "TemplateRuntimeError"):
+        return None
+    return ident_of(ph, t.operand.args[0])
+
+
+def guarded_store_pred(sc, tree, ph, txt):
+    """Every emitted item store `<template variable>[<attr>] = ...` is DOMINATED, in the code of the same statement, by the
+    guard `if not isinstance(<that variable>, Namespace): raise TemplateRuntimeError` (generated code never writes into an
+    object the template did not create unless it is a Namespace)."""
+    if sc.outcome == "raise" or tree is None:
+        return []
+    st = sc.st
+    name_of = {}
+    for e in st.trace:
+        if e.kind == "call" and e.name == "symbols.ref" and isinstance(e.result, Sym):
+            name_of[str(e.result.t)] = e.args[0]
+    fails = []
+    guarded = []  # template-variable names guarded so far (top-level statements, in order: straight-line domination)
+
+    def same(a, b):
+        if a is b:
+            return True
+        if isinstance(a, Sym) and isinstance(b, Sym):
+            return a.t.eq(b.t) or sc.holds(a.t == b.t)
+        return (not isinstance(a, Sym)) and (not isinstance(b, Sym)) and a == b
+
+    def stores_in(node):
+        for n in ast.walk(node):
+            if isinstance(n, ast.Subscript) and isinstance(n.ctx, (ast.Store, ast.Del)):
+                t = ident_of(ph, n.value)
+                if t is not None:
+                    yield n, t
+            if isinstance(n, ast.Call) and isinstance(n.func, ast.Attribute) and n.func.attr in ("__setitem__", "__delitem__", "update", "setdefault", "pop", "clear"):
+                t = ident_of(ph, n.func.value)
+                if t is not None:
+                    yield n, t
+
+    for stmt in tree.body:
+        g = is_namespace_guard(stmt, ph)
+        if g is not None:
+            guarded.append(name_of.get(str(g)))
+            continue
+        for n, t in stores_in(stmt):
+            nm = name_of.get(str(t))
+            if nm is None or not any(x is not None and same(x, nm) for x in guarded):
+                fails.append(f"item store `{ast.unparse(n)[:60]}` on a template variable without a preceding isinstance(..., Namespace) guard for that variable")
+    return fails
+
+
+def non_vacuous(pred, n_refs):
+    """the run must actually show the item stores of the shape (else the obligation would hold vacuously)"""
+    def p(sc, tree, ph, txt):
+        fails = pred(sc, tree, ph, txt) or []
+        if sc.outcome != "raise" and tree is not None:
+            n = sum(1 for x in ast.walk(tree) if isinstance(x, ast.Subscript) and isinstance(x.ctx, ast.Store) and ident_of(ph, x.value) is not None)
+            if n != n_refs:
+                fails.append(f"expected {n_refs} item stores on template variables in the emitted statement, found {n}")
+        return fails
+    return p
+
+
+def store_guard_tasks(prop="C03", prefix="C03.namespace.store_guarded"):
+    from pyvc.emitcheck import EmitTask
+    ts = []
+    for v, cls in (("visit_Assign", N.Assign), ("visit_AssignBlock", N.AssignBlock)):
+        for shape in TARGET_SHAPES:
+            t = EmitTask(prop, f"{prefix}.{v}[{shape}]", f"jinja2.compiler:CodeGenerator.{v}", cls, non_vacuous(guarded_store_pred, shape.count("nsref")), mode="stmts", buffers=(None, "t_buf"),
+                         replay_fn=replay_namespace, configure=store_guard_configure, node_fields=target_fields(shape), min_paths=1)
+            t.bound_text = SHAPE_BOUND
+            ts.append(t)
+    return ts
+
+
+def nsref_sites(task, tier, seed):
+    """Namespace references are only parsed in the target of `{% set %}`: parse_set is the only function of parser.py / ext.py that
+    passes with_namespace=True (the others only forward their own parameter), and nothing else constructs nodes.NSRef; so the
+    visitors that can meet an NSRef in store position are visit_Assign and visit_AssignBlock."""
+    import inspect
+    import jinja2.parser as P
+    import jinja2.ext as X
+    rs = []
+    sites, ctor = [], []
+    for mod in (P, X, C):
+        tree = ast.parse(inspect.getsource(mod))
+        for fn in ast.walk(tree):
+            if not isinstance(fn, (ast.FunctionDef, ast.AsyncFunctionDef)):
+                continue
+            for n in ast.walk(fn):
+                if isinstance(n, ast.Call):
+                    for k in n.keywords:
+                        if k.arg == "with_namespace" and not (isinstance(k.value, ast.Name) and k.value.id == "with_namespace"):
+                            sites.append((mod.__name__, fn.name, ast.unparse(k.value)))
+                    f = n.func
+                    if (isinstance(f, ast.Attribute) and f.attr == "NSRef") or (isinstance(f, ast.Name) and f.id == "NSRef"):
+                        if not (mod is C):
+                            ctor.append((mod.__name__, fn.name))
+    ok = sites == [("jinja2.parser", "parse_set", "True")]
+    rs.append(Res("C03.namespace.nsref_sites.with_namespace", "discharged" if ok else "refuted", "table", 0, f"with_namespace passed as a constant in {sites}", "table", None if ok else {"sites": sites}))
+    ok2 = set(ctor) <= {("jinja2.parser", "parse_primary")}
+    rs.append(Res("C03.namespace.nsref_sites.constructed", "discharged" if ok2 else "refuted", "table", 0, f"nodes.NSRef constructed in {sorted(set(ctor))}", "table", None if ok2 else {"ctor": ctor}))
+    return rs
 
 
 def nsref_guard_task(n_refs):
@@ -2208,7 +2410,8 @@ def namespace_tasks():
     from pyvc.emitcheck import EmitTask
     return [NamespaceVC("__setitem__"), NamespaceVC("__getattribute__"), nsref_guard_task(0), nsref_guard_task(1), nsref_guard_task(2),
             EmitTask("C03", "C03.namespace.visit_NSRef", "jinja2.compiler:CodeGenerator.visit_NSRef", N.NSRef, nsref_emit_pred, mode="stmts", buffers=(None,),
-                     replay_fn=replay_namespace, min_paths=1)]
+                     replay_fn=replay_namespace, min_paths=1),
+            FnTask("C03", "C03.namespace.nsref_sites", nsref_sites, "table", replay_namespace)] + store_guard_tasks()
 
 
 # ------------------------------------------------------------------ C03.symbols.no_alias.literals (table)
